@@ -87,9 +87,13 @@ def value_size_unbounded_reasons(fx):
     r.finish = lambda *a, **k: 0
     try:
         mod.check(fx, r, "quick")
+        known18 = {k["key"] for k in core.load_known() if k.get("property") == "C18" and k.get("status") == "finding"}
         for v in r.violations:
             if v["rule"] == "R18.3" and "|nolimit:" in v["key"]:
                 reasons.append(("nolimit:" + v["key"].split("|nolimit:", 1)[1], v["where"], v["msg"]))
+            elif v["key"] not in known18:
+                # any other break of the size discipline (a child not counted, a new nesting channel, a wrong cull test)
+                reasons.append(("size-discipline:" + v["key"].replace("|", ":"), v["where"], v["msg"]))
     except Exception as e:  # fail closed
         reasons.append(("c18-engine", "-", f"the size-limit audit (C18) crashed: {e}"))
     # is the configured limit capped anywhere between the configuration and the cull test?
